@@ -22,7 +22,7 @@ FLOORS = {'quick': {'span': 500, 'basis': 500, 'basis_one': 1000, 'ders': 500, '
                     'normalize': 50, 'check_reject': 50, 'hook:find_span': 50, 'hook:basis_function': 50},
           'thorough': {'span': 5000, 'basis': 5000, 'basis_one': 10000, 'ders': 5000, 'generate': 100,
                        'normalize': 500, 'check_reject': 500}}
-MANDATORY_TAGS = ['generate:count<=degree', 'kv:unclamped', 'kv:endrep', 'kv:random', 'kv:range', 'u:end', 'u:start', 'u:knot_full', 'deg7', 'deg1']
+MANDATORY_TAGS = ['generate:count<=degree', 'u:near-end', 'kv:unclamped', 'kv:endrep', 'kv:random', 'kv:range', 'u:end', 'u:start', 'u:knot_full', 'deg7', 'deg1']
 
 _CTX = [None]
 
@@ -178,7 +178,7 @@ def gen_basis_case(rng, p=None, cls=None):
     p = p or rng.choice([1, 2, 3, 3, 4, 5, 6, 7])
     n = p + 1 + rng.randint(0, 8)
     cls = cls or rng.choice(['uniform', 'random', 'random', 'random', 'fullmult', 'unclamped', 'unclamped_rep', 'range',
-                             'fine', 'unclamped_endrep'])
+                             'fine', 'unclamped_endrep', 'endknot', 'unclamped-wide'])
     lohi = (0.0, 1.0)
     kcls = cls
     if cls == 'range':
@@ -189,8 +189,30 @@ def gen_basis_case(rng, p=None, cls=None):
         kcls, fine = 'random', True
     if n == p + 1 and kcls in ('uniform', 'random', 'fullmult'):
         kcls = 'bezier'
-    U = G.knot_vector(rng, p, n, kcls, lohi, fine=fine)
-    params = G.param_classes(rng, p, U, nrand=4)
+    extra = []
+    if cls == 'endknot':
+        # a genuine knot very close to the end of the domain, and parameters just below it
+        n = max(n, p + 3)
+        U = G.knot_vector(rng, p, n, 'random', rng.choice([(0.0, 1.0), (0.0, 1.0), (2.0, 5.0)]))
+        a_, b_ = U[p], U[n]
+        g = rng.choice([3e-6, 5e-7, 8e-6]) * (b_ - a_)
+        U[n - 1] = b_ - g
+        if not U[n - 2] < U[n - 1]:
+            U[n - 2] = a_ + 0.5 * (b_ - a_) if p + 1 <= n - 2 else U[n - 2]
+        U = sorted(U)
+        extra = [('near-end', b_ - 2 * g), ('near-end', b_ - 1.5 * g), ('near-end', b_ - 0.5 * g)]
+    elif cls == 'unclamped-wide':
+        # unclamped, with outer knots far outside the domain (the range of the whole vector is much longer than the domain)
+        n = max(n, p + 3)
+        inner = sorted(set(round(rng.uniform(0.05, 0.95), 3) for _ in range(n - p - 1)))
+        while len(inner) < n - p - 1:
+            inner = sorted(set(inner + [round(rng.uniform(0.05, 0.95), 4)]))
+        big = rng.choice([100.0, 1000.0])
+        U = [-big * (p - i) / p for i in range(p)] + [0.0] + inner + [1.0] + [1.0 + big * (i + 1) / p for i in range(p)]
+        extra = [('near-end', 1.0 - 1e-3), ('near-end', inner[-1] + 0.3 * (1.0 - inner[-1])), ('near-end', inner[-1] - 1e-4)]
+    else:
+        U = G.knot_vector(rng, p, n, kcls, lohi, fine=fine)
+    params = G.param_classes(rng, p, U, nrand=4) + [(t_, u_) for t_, u_ in extra if U[p] < u_ < U[n]]
     return {'kind': 'basis', 'p': p, 'n': n, 'kv': U, 'cls': cls, 'params': [[t, u] for t, u in params],
             'order': rng.randint(0, p) if rng.random() < 0.7 else rng.randint(p + 1, p + 3)}
 
